@@ -54,7 +54,7 @@ ADD_ONLY_NAMES = ("_u", "in", "a b")     # names only add() can give: leading un
 
 def histories(rnd, n, maxlen, kinds):
     ops = ("setattr", "add_named", "add_name_arg", "get", "bad_value", "banned", "delattr", "reuse_obj", "reuse_obj",
-           "rename_by_hand")
+           "rename_by_hand", "revis_move", "revis_readd")
 
     def step():
         op = rnd.choice(ops[:3] * 3 + ops[3:])
@@ -78,6 +78,9 @@ def small_histories(kinds):
             # an object held under two names, or re-named by hand, when one of its names is re-used for another kind
             yield (("setattr", "a", k1), ("reuse_obj", "b", k1), ("setattr", "a", k2), ("get", "b", k1))
             yield (("setattr", "a", k1), ("reuse_obj", "b", k1), ("setattr", "b", k2), ("get", "a", k1))
+            yield (("setattr", "a", k1), ("revis_move", "b", k1), ("get", "a", k1), ("setattr", "a", k2))
+            yield (("setattr", "a", k1), ("revis_move", "a", k1), ("reuse_obj", "c", k1))
+            yield (("setattr", "a", k1), ("setattr", "b", k2), ("revis_readd", "a", k1), ("revis_move", "c", k2))
             yield (("setattr", "a", k1), ("rename_by_hand", "a", k1), ("setattr", "a", k2))
             yield (("setattr", "a", k1), ("setattr", "c", k1), ("rename_by_hand", "a", k1), ("add_name_arg", "a", k2))
 
@@ -179,6 +182,23 @@ def check_history(case):
                 if held_as != name and spec.get(held_as) is v:
                     del spec[held_as]
                 spec[name] = v
+            elif op in ("revis_move", "revis_readd"):
+                # a held signal's visibility is changed IN PLACE (internal <-> port), then the object is assigned under
+                # `name` (a move, or the same name again) / added again under its own name: after the assignment or add()
+                # it is listed where its visibility says
+                sigs = sorted(n_ for n_, v_ in spec.items() if isinstance(v_, h.Signal) and v_.name == n_)
+                if not sigs or not is_mod:
+                    continue
+                src = sigs[rnd.randrange(len(sigs))]
+                v = spec[src]
+                v.vis = h.Visibility.INTERNAL if v.vis == h.Visibility.PORT else h.Visibility.PORT
+                if op == "revis_move":
+                    setattr(m, name, v)
+                    if src != name:
+                        del spec[src]
+                    spec[name] = v
+                else:
+                    m.add(v)
             elif op == "rename_by_hand":
                 # the object's own `name` field changes; the namespace keys do not
                 if name in spec:
